@@ -137,6 +137,43 @@ class Run(object):
                 code, body = sim.rest('POST', '/v1/peer/%s/send/update' % PEER, json_body=req)
                 if code != 200 or not body or body.get('status') is not True:
                     out.append(('send-rejected:%s' % k, '%r -> %s %r' % (req, code, body)))
+        elif k in ('vpn-ann2', 'fs-ann2'):
+            side = op[-1]
+            act = 'received' if side == 'peer' else 'send'
+            base = rc.a_origin(0) + rc.a_as_path([(2, [65002])], True)
+            if k == 'vpn-ann2':
+                items = [(op[1], op[2]), (op[3], op[4])]
+                table = self.vpn_in if side == 'peer' else self.vpn_out
+                for idx, lab in items:
+                    if idx in table and table[idx] != (lab,):
+                        self.nontrivial = True
+                    if table.get(idx) != (lab,):
+                        changed[act].add('mpls_vpn')
+                    table[idx] = (lab,)
+                if side == 'peer':
+                    nl = b''.join(rc.vpn_route(VPN[i][1], rc.rd(VPN[i][0]), [lab]) for i, lab in items)
+                    r.peer_send(self.c, rc.update(attrs=base + rc.a_mp_reach(1, 128, b'\x00' * 8 + rc.ip4('10.0.0.2'), nl)))
+                else:
+                    req = {'attr': {'1': 0, '2': [[2, [65001]]], '14': {'afi_safi': [1, 128], 'nexthop': {'rd': '0:0', 'str': '10.0.0.1'},
+                                                                        'nlri': [{'rd': VPN[i][0], 'prefix': VPN[i][1], 'label': [lab]} for i, lab in items]}}}
+                    code, body = sim.rest('POST', '/v1/peer/%s/send/update' % PEER, json_body=req)
+                    if code != 200 or not body or body.get('status') is not True:
+                        out.append(('send-rejected:%s' % k, '%r -> %s %r' % (req, code, body)))
+            else:
+                items = [op[1], op[2]]
+                table = self.fs_in if side == 'peer' else self.fs_out
+                for idx in items:
+                    if table.get(idx) != ('attrs0',):
+                        changed[act].add('flowspec')
+                    table[idx] = ('attrs0',)
+                if side == 'peer':
+                    nl = b''.join(rc.fs_rule(FS_RULES[i]) for i in items)
+                    r.peer_send(self.c, rc.update(attrs=base + rc.a_mp_reach(1, 133, b'', nl)))
+                else:
+                    req = {'attr': {'1': 0, '2': [[2, [65001]]], '14': {'afi_safi': [1, 133], 'nexthop': '', 'nlri': [FS_JSON[i] for i in items]}}}
+                    code, body = sim.rest('POST', '/v1/peer/%s/send/update' % PEER, json_body=req)
+                    if code != 200 or not body or body.get('status') is not True:
+                        out.append(('send-rejected:%s' % k, '%r -> %s %r' % (req, code, body)))
         elif k in ('fs-ann', 'fs-wd', 'vpn-ann', 'vpn-wd'):
             side = op[-1]
             act = 'received' if side == 'peer' else 'send'
@@ -259,6 +296,10 @@ op_strategy = st.one_of(
     st.tuples(st.just('fs-wd'), st.integers(0, 2), side).map(list),
     st.tuples(st.just('vpn-ann'), st.integers(0, 2), st.sampled_from([16, 17]), side).map(list),
     st.tuples(st.just('vpn-wd'), st.integers(0, 2), side).map(list),
+    st.tuples(st.just('vpn-ann2'), st.integers(0, 2), st.sampled_from([16, 17]), st.integers(0, 2), st.sampled_from([16, 17]), side).map(
+        lambda t: ['vpn-ann2', t[1], t[2], (t[3] if t[3] != t[1] else (t[1] + 1) % 3), t[4], t[5]]),
+    st.tuples(st.just('fs-ann2'), st.integers(0, 2), st.integers(0, 2), side).map(
+        lambda t: ['fs-ann2', t[1], (t[2] if t[2] != t[1] else (t[1] + 1) % 3), t[3]]),
     st.just(['drop']),
 )
 
@@ -274,7 +315,8 @@ def run_shard(spec, seed, col, tier):
     if spec['kind'] == 'exh':
         alpha = [['ann', [1], 0, 'peer'], ['ann', [1], 1, 'peer'], ['ann', [2], 0, 'peer'], ['ann', [1, 2], 1, 'peer'],
                  ['wd', [1], 'peer'], ['wd', [2], 'peer'], ['mixed', [1], 0, [2], 'peer'], ['ann', [1], 0, 'rest'], ['wd', [1], 'rest'],
-                 ['drop']]
+                 ['drop'], ['vpn-ann2', 0, 16, 1, 17, 'peer'], ['vpn-ann', 0, 16, 'peer'], ['vpn-ann', 0, 17, 'peer'], ['vpn-wd', 0, 'peer'],
+                 ['fs-ann2', 0, 1, 'peer'], ['fs-wd', 0, 'peer']]
         seqs = list(itertools.product(range(len(alpha)), repeat=spec['len']))[spec['part']::spec['parts']]
         for s in seqs:
             ops = [alpha[i] for i in s]
